@@ -208,6 +208,13 @@ impl Sut {
         now
     }
 
+    /// The clock is corrected backwards (a wall clock may be): legal for any implementation of the public Clock trait.
+    pub fn step_back(&self, delta_ns: u64) -> u64 {
+        let now = self.clock.0.fetch_sub(delta_ns, Ordering::SeqCst) - delta_ns;
+        self.sweeps_at_last_clock_change.store(recorder().sweeps(), Ordering::SeqCst);
+        now
+    }
+
     pub fn sweeper_runs(&self) -> bool { self.cfg.tick < Duration::from_secs(60) }
 
     /// Waits until two sweeps have completed since the last clock change (so at least one began after it).
